@@ -395,6 +395,13 @@ func (w *World) TimeoutV2(src, dst int, p channeltypesv2.Packet, ph clienttypes.
 
 // ---- mock application observers ---------------------------------------------------------------
 
+// Packet data understood by the observing v1 mock application in addition to the mock module's own constants.
+const (
+	WriteInRecvOK    = "verif: write ack inside recv, answer success"
+	WriteInRecvAsync = "verif: write ack inside recv, answer nothing"
+	WriteInRecvFail  = "verif: write ack inside recv, answer failure"
+)
+
 // MockBehaviour lets a scenario decide what the mock v1 application answers on receive.
 type MockBehaviour func(ctx sdk.Context, packet channeltypes.Packet) exported.Acknowledgement
 
@@ -402,6 +409,7 @@ type MockBehaviour func(ctx sdk.Context, packet channeltypes.Packet) exported.Ac
 // chain log their packet callbacks into the observer of the running transaction.
 func (wk *Worker) InstallMockObservers() {
 	for _, ch := range wk.Chains {
+		chain := ch
 		app := ch.App.IBCMockModule.IBCApp
 		app.OnRecvPacket = func(ctx sdk.Context, _ string, p channeltypes.Packet, _ sdk.AccAddress) exported.Acknowledgement {
 			wk.Observe(Event{Kind: "recv", ID: p.DestinationPort + "/" + p.DestinationChannel, Seq: p.Sequence, Data: string(p.Data)})
@@ -413,6 +421,18 @@ func (wk *Worker) InstallMockObservers() {
 				return nil
 			case string(ibcmock.MockFailPacketData):
 				return ibcmock.MockFailAcknowledgement
+			case WriteInRecvOK, WriteInRecvAsync, WriteInRecvFail:
+				// an application (or middleware) that writes the acknowledgement itself while it is still inside the
+				// receive callback, and then answers success / nothing / failure
+				if err := chain.App.IBCKeeper.ChannelKeeper.WriteAcknowledgement(ctx, p, channeltypes.NewResultAcknowledgement([]byte("written-inside-recv"))); err != nil {
+					wk.Observe(Event{Kind: "recv-write-refused", ID: p.DestinationPort + "/" + p.DestinationChannel, Seq: p.Sequence})
+				}
+				switch string(p.Data) {
+				case WriteInRecvAsync:
+					return nil
+				case WriteInRecvFail:
+					return ibcmock.MockFailAcknowledgement
+				}
 			}
 			return ibcmock.MockAcknowledgement
 		}
